@@ -5,6 +5,12 @@ KEYFILE_STATE = ["fs", "rand_ctr", "fresh", "ncalls", "Config._Config__keyfile@*
 UNCHANGED = "heap_unchanged('Config._parent', 'Config._key', 'Config._container', 'Config._Config__keyfile', 'Config._Config__default_keyfile', 'KeyFile._KeyFile__key', 'KeyFile._KeyFile__refcount')"
 
 
+# validating a value with a field that is not a container of configurations (typed list / dict, which load their items) and
+# not a challenge field (which draws a salt) touches no file, no key file and no random stream
+PLAIN_FRAME = ("implies(not typeis(self, 'ref:ListField|ref:DictField|ref:ChallengeField'), fs_same() and glob('rand_ctr') == old(glob('rand_ctr'))"
+               " and heap_unchanged('Config._parent', 'Config._key', 'Config._container'))")
+
+
 def adopt_frame(v):
     """only Config objects occurring inside the assigned/loaded value get new parent/key/container links"""
     return ("forall('c:cfg', 'implies(not inside(%s, c), c._parent is old(c._parent) and c._key == old(c._key)"
@@ -15,13 +21,15 @@ def register(reg):
     C = reg.contract
     # ------------------------------------------------------------------ fields (virtual contracts)
     C("core:Field.validate", virtual=True, params={"cfg": "ref:Config", "value": "any"}, returns="any",
-      modifies=["fresh", "ncalls"] + ADOPT,
+      modifies=KEYFILE_STATE + ADOPT,    # typed lists/dicts of configurations load their items (secrets: key files, salts)
       ensures={
           "C01.result-satisfies-constraints": "result is None or accepts(self, result)",
           "C11.required-has-value": "implies(self.required and not truthy(self.validator), result is not None or not persistent(self))",
           "C05.none-passes": "implies(value is None, result is None)",
+          "C06+C13.only-container-and-challenge-fields-touch-key-material": PLAIN_FRAME,
       },
       raises={"C05.none-rejected-only-if-required": "implies(value is None, self.required)",
+              "C06+C13.only-container-and-challenge-fields-touch-key-material": PLAIN_FRAME,
               "C05.plain-field-accepts-all": "not (exact_class(self, 'Field', 'AnyField') and not self.required and not truthy(self.validator))"},
       defs={"accepts": (["f", "r"], "accepts_type(f, r) or truthy(f.validator)")})
     C("core:Field.__setval__", virtual=True, params={"cfg": "ref:Config", "value": "any"},
@@ -152,13 +160,15 @@ def register_field_base(reg):
     ADOPT_FRAME = adopt_frame("value")
     C("core:Field._validate", virtual=True, params={"cfg": "ref:Config", "value": "any"}, returns="any",
       requires={"not-none": "value is not None"},
-      modifies=["fresh", "ncalls"] + ADOPT,
+      modifies=KEYFILE_STATE + ADOPT,
       ensures={
           "C01.type-level-constraints": "accepts_type(self, result)",
           "C11.validated-not-none": "result is not None",
           "C11.required-nonempty": "implies(self.required and typeis(self, 'ref:StringField|ref:ListField|ref:DictField'), truthy(result))",
+          "C06+C13.only-container-and-challenge-fields-touch-key-material": PLAIN_FRAME,
       },
-      raises={"C05.base-never-rejects": "not exact_class(self, 'Field', 'AnyField')"},
+      raises={"C05.base-never-rejects": "not exact_class(self, 'Field', 'AnyField')",
+              "C06+C13.only-container-and-challenge-fields-touch-key-material": PLAIN_FRAME},
       defs={"accepts_type": (["f", "r"], "True")})
     C("core:Field.default", params={}, returns="any", modifies=["fresh", "ncalls"],
       assumes={"A.default-is-not-a-schema": "not typeis(self._default, 'ref:BaseField')"},
